@@ -482,6 +482,22 @@ def rstripEnd (v : Variant) (t : Text σ) (size : Int) : Text σ :=
     if ws != 0 then t.rightCrop v (min (ws : Int) excess) else t
   else t
 
+/-- `rstrip_end(size)` with the repair of `pending_fixes/C08-rstrip-end-counts-cells.diff` as a variant flag.
+`chars = true` is rich today: `text_length = len(self)` (characters) is compared with the *cell* width `size`;
+`chars = false` is the repaired code: `text_length = cell_len(self.plain)`.
+(The flag is an explicit argument rather than a seventh field of `Variant`: `Variant`'s constructor and
+`rstripEnd`'s signature are used as they are by the word-wrap model; `rstripEndW true cw v = rstripEnd v`.) -/
+def rstripEndW (chars : Bool) (cw : Char → Nat) (v : Variant) (t : Text σ) (size : Int) : Text σ :=
+  let textLength : Int := if chars then t.length else (cellLen cw t.plain : Int)
+  if textLength > size then
+    let excess := textLength - size
+    let ws := trailingSpaceCount t.plain
+    if ws != 0 then t.rightCrop v (min (ws : Int) excess) else t
+  else t
+
+theorem rstripEndW_true (cw : Char → Nat) (v : Variant) (t : Text σ) (size : Int) :
+    rstripEndW true cw v t size = rstripEnd v t size := rfl
+
 /-- `set_cell_size(text, total)` with an `int` total that may be negative (`max_width - 1`). -/
 def setCellSizeI (cw : Char → Nat) (text : List Char) (total : Int) : List Char :=
   let cellSize : Int := cellLen cw text
